@@ -66,6 +66,8 @@ def normalise(s, fmt, original=None):
     s = copy.deepcopy(s)
     sc = s["scenario"]
     for l in sc["network"]["lanelets"].values():
+        if fmt == "xml" and not l.get("types"):
+            l["types"] = ["UNKNOWN"]     # the 2020a schema requires a laneletType: the writer documents that it writes the default for a lanelet without type
         sl = l.get("stop_line")
         if sl:
             for k in ("sign_ref", "light_ref"):      # no references: None and the empty set carry the same information
